@@ -58,7 +58,11 @@ def mv(it, m: Mat, x):
     f = _fn(it, "mv", mat_id(it, m).sort(), _RA, z3.IntSort(), z3.RealSort())
     A = _real_array(xv)
     M = mat_id(it, m)
-    return Arr.new(Vec(m.rows, lambda i: f(M, A, i if not isinstance(i, int) else z3.IntVal(i)), "real"))
+    r = Arr.new(Vec(m.rows, lambda i: f(M, A, i if not isinstance(i, int) else z3.IntVal(i)), "real"))
+    hook = it.hooks.get("mv")
+    if hook is not None:
+        hook(it, m, x, r)
+    return r
 
 
 def mtv(it, m: Mat, y):
